@@ -468,4 +468,280 @@ theorem div_pow10_9 : ∀ k, k ∈ [1,2,3,4,5,6,7,8,9] → F64.div (F64.ofNat 10
 theorem div_pow10_6 : ∀ k, k ∈ [1,2,3,4,5,6] → F64.div (F64.ofNat 1000000) (F64.ofNat (10 ^ k)) = F64.ofNat (10 ^ (6 - k)) := by decide
 theorem div_pow10_3 : ∀ k, k ∈ [1,2,3] → F64.div (F64.ofNat 1000) (F64.ofNat (10 ^ k)) = F64.ofNat (10 ^ (3 - k)) := by decide
 
+/-! ### the fraction's float arithmetic is exact -/
+
+theorem pow10_lt_2_53 (j : Nat) (hj : j ≤ 9) : 10 ^ j ≤ 1000000000 := by
+  calc 10 ^ j ≤ 10 ^ 9 := Nat.pow_le_pow_right (by omega) hj
+    _ = 1000000000 := by decide
+
+theorem frac_add_core (U f k p : Nat) (hp : p ≤ 9) (hU : U = 10 ^ p) (hkp : k ≤ p) (hf : 0 < f) (hfk : f < 10 ^ k)
+    (hdiv : F64.div (F64.ofNat U) (F64.ofNat (10 ^ k)) = F64.ofNat (10 ^ (p - k))) :
+    (F64.toUInt64 (F64.mul (F64.ofNat f) (F64.div (F64.ofNat U) (F64.ofNat (10 ^ k))))).toNat = f * 10 ^ (p - k) := by
+  have hpos : 0 < 10 ^ (p - k) := Nat.pow_pos (by omega)
+  have hprod : f * 10 ^ (p - k) < 10 ^ p := by
+    calc f * 10 ^ (p - k) < 10 ^ k * 10 ^ (p - k) := Nat.mul_lt_mul_of_pos_right hfk hpos
+      _ = 10 ^ p := by rw [← Nat.pow_add]; congr 1; omega
+  have h53 : f * 10 ^ (p - k) < 2 ^ 53 := by
+    have := pow10_lt_2_53 p hp
+    omega
+  rw [hdiv, mul_ofNat f _ hf hpos h53, toUInt64_ofNat _ (Nat.mul_pos hf hpos) h53]
+  exact Int.toNat_natCast _
+
+theorem frac_add_9 (f k : Nat) (hk1 : 1 ≤ k) (hk : k ≤ 9) (hf : 0 < f) (hfk : f < 10 ^ k) :
+    (F64.toUInt64 (F64.mul (F64.ofNat f) (F64.div (F64.ofNat 1000000000) (F64.ofNat (10 ^ k))))).toNat = f * 10 ^ (9 - k) :=
+  frac_add_core 1000000000 f k 9 (by omega) (by decide) hk hf hfk
+    (div_pow10_9 k (by simp; omega))
+
+theorem frac_add_6 (f k : Nat) (hk1 : 1 ≤ k) (hk : k ≤ 6) (hf : 0 < f) (hfk : f < 10 ^ k) :
+    (F64.toUInt64 (F64.mul (F64.ofNat f) (F64.div (F64.ofNat 1000000) (F64.ofNat (10 ^ k))))).toNat = f * 10 ^ (6 - k) :=
+  frac_add_core 1000000 f k 6 (by omega) (by decide) hk hf hfk
+    (div_pow10_6 k (by simp; omega))
+
+theorem frac_add_3 (f k : Nat) (hk1 : 1 ≤ k) (hk : k ≤ 3) (hf : 0 < f) (hfk : f < 10 ^ k) :
+    (F64.toUInt64 (F64.mul (F64.ofNat f) (F64.div (F64.ofNat 1000) (F64.ofNat (10 ^ k))))).toNat = f * 10 ^ (3 - k) :=
+  frac_add_core 1000 f k 3 (by omega) (by decide) hk hf hfk
+    (div_pow10_3 k (by simp; omega))
+
+/-! ### the last component (with the fraction) -/
+
+theorem dFrom_lt_pow (ds : Bytes) : ∀ acc, Digs ds → dFrom acc ds < (acc + 1) * 10 ^ ds.length := by
+  induction ds with
+  | nil => intro acc _; simp [dFrom]
+  | cons c r ih =>
+    intro acc hd
+    have hc := hd c (by simp)
+    have hd' : Digs r := fun y hy => hd y (by simp [hy])
+    rw [dFrom_cons]
+    have h1 := ih (acc * 10 + (c - 48)) hd'
+    have h2 : acc * 10 + (c - 48) + 1 ≤ (acc + 1) * 10 := by
+      simp [isDigit] at hc; omega
+    calc dFrom (acc * 10 + (c - 48)) r < (acc * 10 + (c - 48) + 1) * 10 ^ r.length := h1
+      _ ≤ (acc + 1) * 10 * 10 ^ r.length := Nat.mul_le_mul_right _ h2
+      _ = (acc + 1) * 10 ^ (c :: r).length := by rw [List.length_cons, Nat.pow_succ, Nat.mul_assoc, Nat.mul_comm 10]
+
+theorem loop_nil (fuel d : Nat) : parseLoopF (fuel + 1) [] d = .ok d := by
+  simp [parseLoopF]
+
+theorem last_component (p U : Nat) (unit : Bytes) (hp9 : p ≤ 9)
+    (hu : UnitChars unit) (hne : unit ≠ []) (hUv : unitValue unit = some U)
+    (hfa : ∀ f k, 1 ≤ k → k ≤ p → 0 < f → f < 10 ^ k →
+      (F64.toUInt64 (F64.mul (F64.ofNat f) (F64.div (F64.ofNat U) (F64.ofNat (10 ^ k))))).toNat = f * 10 ^ (p - k))
+    (u0 w d fuel : Nat) (hw : w ≤ p63) (hwU : ¬ w > p63 / U) (hd : d + (w * U + u0 % 10 ^ p) ≤ p63) :
+    parseLoopF (fuel + 2) (fmtNat w ++ ((fmtFrac p u0 false []).1 ++ unit)) d = .ok (d + (w * U + u0 % 10 ^ p)) := by
+  have hnil : NextOK [] := by intro c hc; simp at hc
+  rcases fmtFrac_false p u0 with ⟨hz, hff⟩ | ⟨hnz, ds, hff, hds, hk1, hkp, hval⟩
+  · rw [hff, hz]
+    simp only [List.nil_append, Nat.add_zero]
+    have := step_int (fuel + 1) w unit [] d U hu hne hUv hnil hw hwU (by rw [hz] at hd; simpa using hd)
+    simp only [List.append_nil] at this
+    rw [this, loop_nil]
+  · rw [hff]
+    have hfpos : 0 < dFrom 0 ds := by
+      rcases Nat.eq_zero_or_pos (dFrom 0 ds) with h0 | h0
+      · rw [h0] at hval; simp at hval; exact absurd hval.symm hnz
+      · exact h0
+    have hflt : dFrom 0 ds < 10 ^ ds.length := by simpa using dFrom_lt_pow ds 0 hds
+    have hsmall : dFrom 0 ds < 1000000000000000000 := by
+      have : 10 ^ ds.length ≤ 1000000000 := pow10_lt_2_53 _ (by omega)
+      omega
+    have hadd := hfa (dFrom 0 ds) ds.length hk1 hkp hfpos hflt
+    rw [hval] at hadd
+    have := step_frac (fuel + 1) w ds unit [] d U (u0 % 10 ^ p) hu hne hUv hnil hds hsmall hfpos hadd hw hwU hd
+    simp only [List.append_nil] at this
+    simp only [List.cons_append]
+    rw [this, loop_nil]
+
+/-! ### `ParseDuration(d.String()) = d` -/
+
+def uNs : Bytes := [110, 115]
+def uUs : Bytes := [194, 181, 115]
+def uMs : Bytes := [109, 115]
+def uS : Bytes := [115]
+def uM : Bytes := [109]
+def uH : Bytes := [104]
+
+theorem units_ok :
+    (UnitChars uNs ∧ unitValue uNs = some 1) ∧ (UnitChars uUs ∧ unitValue uUs = some 1000) ∧
+    (UnitChars uMs ∧ unitValue uMs = some 1000000) ∧ (UnitChars uS ∧ unitValue uS = some 1000000000) ∧
+    (UnitChars uM ∧ unitValue uM = some 60000000000) ∧ (UnitChars uH ∧ unitValue uH = some 3600000000000) := by
+  unfold UnitChars; decide
+
+/-- the text `Duration.String` produces for a positive duration of `u` nanoseconds -/
+def body (u : Nat) : Bytes :=
+  if u < 1000000000 then
+    if u < 1000 then fmtNat u ++ uNs
+    else if u < 1000000 then fmtNat (fmtFrac 3 u false []).2 ++ ((fmtFrac 3 u false []).1 ++ uUs)
+    else fmtNat (fmtFrac 6 u false []).2 ++ ((fmtFrac 6 u false []).1 ++ uMs)
+  else
+    let secs := (fmtFrac 9 u false []).2
+    let sPart := fmtNat (secs % 60) ++ ((fmtFrac 9 u false []).1 ++ uS)
+    let mins := secs / 60
+    if mins > 0 then
+      let mPart := fmtNat (mins % 60) ++ (uM ++ sPart)
+      let hrs := mins / 60
+      if hrs > 0 then fmtNat hrs ++ (uH ++ mPart) else mPart
+    else sPart
+
+theorem toString_pos (u : Nat) (h0 : 0 < u) (hmax : u ≤ 9223372036854775807) : Duration.toString (u : Int) = body u := by
+  have hneg : ¬ ((u : Int) < 0) := by omega
+  have hw : (wrapU64 (u : Int)).toNat = u := by
+    rw [wrapU64_id (by unfold inU64 two64; omega)]; exact Int.toNat_natCast u
+  have hu0 : (u == 0) = false := by simp; omega
+  unfold Duration.toString body
+  simp only [hneg, Bool.false_eq_true, ↓reduceIte, hw, hu0, uNs, uUs, uMs, uS, uM, uH,
+    List.append_assoc]
+
+theorem fmtFrac_snd (p v : Nat) : (fmtFrac p v false []).2 = v / 10 ^ p := by
+  rcases fmtFrac_false p v with ⟨_, h⟩ | ⟨_, ds, h, _⟩ <;> rw [h]
+
+theorem nextok_fmtNat (x : Nat) (t : Bytes) : NextOK (fmtNat x ++ t) := by
+  obtain ⟨hd, hn, _⟩ := fmtNat_spec x
+  intro c hc
+  cases h : fmtNat x with
+  | nil => exact absurd h hn
+  | cons a b =>
+    rw [h] at hc; simp at hc; subst hc
+    exact hd a (by rw [h]; simp)
+
+theorem fmtNat_len (x : Nat) : 1 ≤ (fmtNat x).length := by
+  obtain ⟨_, hn, _⟩ := fmtNat_spec x
+  cases h : fmtNat x with
+  | nil => exact absurd h hn
+  | cons a b => simp
+
+/-- from the loop's result to `ParseDuration`'s, for a text that starts with a digit -/
+theorem parse_of_loop (s : Bytes) (u : Nat) (x : Nat) (t : Bytes) (hs : s = fmtNat x ++ t) (ht : t ≠ [])
+    (hu : u ≤ p63 - 1) (hloop : parseLoop s 0 = .ok u) : parse s = .ok (u : Int) := by
+  obtain ⟨hd, hn, _⟩ := fmtNat_spec x
+  obtain ⟨c0, tl, hc⟩ : ∃ c0 tl, fmtNat x = c0 :: tl := by
+    cases h : fmtNat x with
+    | nil => exact absurd h hn
+    | cons a b => exact ⟨a, b, rfl⟩
+  have hc0 : isDigit c0 = true := hd c0 (by rw [hc]; simp)
+  have h45 : c0 ≠ 45 ∧ c0 ≠ 43 := by simp [isDigit] at hc0; omega
+  have hs' : s = c0 :: (tl ++ t) := by rw [hs, hc]; rfl
+  have htl : tl ++ t ≠ [] := by simp [ht]
+  unfold parse
+  subst hs'
+  split
+  · rename_i heq
+    split at heq
+    · rename_i h2; injection h2 with h3 _; exact absurd h3 h45.1
+    · rename_i h2; injection h2 with h3 _; exact absurd h3 h45.2
+    · injection heq with hneg hs1
+      subst hneg; subst hs1
+      have h1 : ((c0 :: (tl ++ t)) == [48]) = false := by
+        cases hh : tl ++ t with
+        | nil => exact absurd hh htl
+        | cons a b => simp
+      have h2 : ((c0 :: (tl ++ t)) == ([] : Bytes)) = false := by simp
+      simp only [h1, h2, Bool.false_eq_true, ↓reduceIte, hloop]
+      have : ¬ u > p63 - 1 := by omega
+      simp only [this, ↓reduceIte]
+
+set_option linter.unusedSimpArgs false in
+theorem loop_body (u : Nat) (h0 : 0 < u) (hmax : u ≤ 9223372036854775807) : parseLoop (body u) 0 = .ok u := by
+  obtain ⟨⟨cNs, vNs⟩, ⟨cUs, vUs⟩, ⟨cMs, vMs⟩, ⟨cS, vS⟩, ⟨cM, vM⟩, ⟨cH, vH⟩⟩ := units_ok
+  have hnil : NextOK [] := by intro c hc; simp at hc
+  unfold parseLoop body
+  by_cases h9 : u < 1000000000
+  · simp only [h9, ↓reduceIte]
+    by_cases h3 : u < 1000
+    · simp only [h3, ↓reduceIte]
+      have hl := fmtNat_len u
+      obtain ⟨n, hn⟩ : ∃ n, (fmtNat u ++ uNs).length + 1 = n + 2 := ⟨(fmtNat u ++ uNs).length - 1, by simp only [List.length_append, uNs, uUs, uMs, uS, uM, uH, List.length_cons, List.length_nil]; omega⟩
+      rw [hn]
+      have := step_int (n + 1) u uNs [] 0 1 cNs (by decide) vNs hnil (by simp only [p63]; omega) (by simp only [p63]; omega)
+        (by simp only [p63]; omega)
+      simp only [List.append_nil] at this
+      rw [this, loop_nil]; simp
+    · simp only [h3, ↓reduceIte]
+      by_cases h6 : u < 1000000
+      · simp only [h6, ↓reduceIte, fmtFrac_snd]
+        have hl := fmtNat_len (u / 10 ^ 3)
+        obtain ⟨n, hn⟩ : ∃ n, (fmtNat (u / 10 ^ 3) ++ ((fmtFrac 3 u false []).1 ++ uUs)).length + 1 = n + 2 :=
+          ⟨(fmtNat (u / 10 ^ 3) ++ ((fmtFrac 3 u false []).1 ++ uUs)).length - 1, by simp only [List.length_append, uNs, uUs, uMs, uS, uM, uH, List.length_cons, List.length_nil]; omega⟩
+        rw [hn]
+        have := last_component 3 1000 uUs (by omega) cUs (by decide) vUs (fun f k h1 h2 h3 h4 => frac_add_3 f k h1 h2 h3 h4)
+          u (u / 10 ^ 3) 0 n (by simp only [p63]; omega) (by simp only [p63]; omega) (by simp only [p63]; omega)
+        rw [this]; congr 1; omega
+      · simp only [h6, ↓reduceIte, fmtFrac_snd]
+        have hl := fmtNat_len (u / 10 ^ 6)
+        obtain ⟨n, hn⟩ : ∃ n, (fmtNat (u / 10 ^ 6) ++ ((fmtFrac 6 u false []).1 ++ uMs)).length + 1 = n + 2 :=
+          ⟨(fmtNat (u / 10 ^ 6) ++ ((fmtFrac 6 u false []).1 ++ uMs)).length - 1, by simp only [List.length_append, uNs, uUs, uMs, uS, uM, uH, List.length_cons, List.length_nil]; omega⟩
+        rw [hn]
+        have := last_component 6 1000000 uMs (by omega) cMs (by decide) vMs (fun f k h1 h2 h3 h4 => frac_add_6 f k h1 h2 h3 h4)
+          u (u / 10 ^ 6) 0 n (by simp only [p63]; omega) (by simp only [p63]; omega) (by simp only [p63]; omega)
+        rw [this]; congr 1; omega
+  · simp only [h9, ↓reduceIte, fmtFrac_snd]
+    -- seconds component, reached with `d` already accumulated
+    have hsec : ∀ (d n : Nat), d + (u / 10 ^ 9 % 60 * 1000000000 + u % 10 ^ 9) ≤ p63 →
+        parseLoopF (n + 2) (fmtNat (u / 10 ^ 9 % 60) ++ ((fmtFrac 9 u false []).1 ++ uS)) d =
+          .ok (d + (u / 10 ^ 9 % 60 * 1000000000 + u % 10 ^ 9)) := by
+      intro d n hd
+      exact last_component 9 1000000000 uS (by omega) cS (by decide) vS (fun f k h1 h2 h3 h4 => frac_add_9 f k h1 h2 h3 h4)
+        u (u / 10 ^ 9 % 60) d n (by simp only [p63]; omega) (by simp only [p63]; omega) hd
+    by_cases hm : u / 10 ^ 9 / 60 > 0
+    · simp only [hm, ↓reduceIte]
+      by_cases hh : u / 10 ^ 9 / 60 / 60 > 0
+      · simp only [hh, ↓reduceIte]
+        have l1 := fmtNat_len (u / 10 ^ 9 / 60 / 60)
+        have l2 := fmtNat_len (u / 10 ^ 9 / 60 % 60)
+        have l3 := fmtNat_len (u / 10 ^ 9 % 60)
+        generalize hS : fmtNat (u / 10 ^ 9 % 60) ++ ((fmtFrac 9 u false []).1 ++ uS) = sPart at hsec
+        obtain ⟨n, hn⟩ : ∃ n, (fmtNat (u / 10 ^ 9 / 60 / 60) ++ (uH ++ (fmtNat (u / 10 ^ 9 / 60 % 60) ++ (uM ++ sPart)))).length + 1 = n + 4 :=
+          ⟨(fmtNat (u / 10 ^ 9 / 60 / 60) ++ (uH ++ (fmtNat (u / 10 ^ 9 / 60 % 60) ++ (uM ++ sPart)))).length - 3, by
+            simp only [List.length_append, uNs, uUs, uMs, uS, uM, uH, List.length_cons, List.length_nil]; omega⟩
+        rw [hn]
+        have hsp : NextOK sPart := by rw [← hS]; exact nextok_fmtNat _ _
+        rw [step_int (n + 3) (u / 10 ^ 9 / 60 / 60) uH _ 0 3600000000000 cH (by decide) vH (nextok_fmtNat _ _)
+          (by simp only [p63]; omega) (by simp only [p63]; omega) (by simp only [p63]; omega)]
+        rw [step_int (n + 2) (u / 10 ^ 9 / 60 % 60) uM sPart _ 60000000000 cM (by decide) vM hsp
+          (by simp only [p63]; omega) (by simp only [p63]; omega) (by simp only [p63]; omega)]
+        rw [hsec _ n (by simp only [p63]; omega)]
+        congr 1; omega
+      · simp only [hh, ↓reduceIte]
+        have l2 := fmtNat_len (u / 10 ^ 9 / 60 % 60)
+        generalize hS : fmtNat (u / 10 ^ 9 % 60) ++ ((fmtFrac 9 u false []).1 ++ uS) = sPart at hsec
+        obtain ⟨n, hn⟩ : ∃ n, (fmtNat (u / 10 ^ 9 / 60 % 60) ++ (uM ++ sPart)).length + 1 = n + 3 :=
+          ⟨(fmtNat (u / 10 ^ 9 / 60 % 60) ++ (uM ++ sPart)).length - 2, by simp only [List.length_append, uNs, uUs, uMs, uS, uM, uH, List.length_cons, List.length_nil]; omega⟩
+        rw [hn]
+        have hsp : NextOK sPart := by rw [← hS]; exact nextok_fmtNat _ _
+        rw [step_int (n + 2) (u / 10 ^ 9 / 60 % 60) uM sPart _ 60000000000 cM (by decide) vM hsp
+          (by simp only [p63]; omega) (by simp only [p63]; omega) (by simp only [p63]; omega)]
+        rw [hsec _ n (by simp only [p63]; omega)]
+        congr 1; omega
+    · simp only [hm, ↓reduceIte]
+      have l3 := fmtNat_len (u / 10 ^ 9 % 60)
+      obtain ⟨n, hn⟩ : ∃ n, (fmtNat (u / 10 ^ 9 % 60) ++ ((fmtFrac 9 u false []).1 ++ uS)).length + 1 = n + 2 :=
+        ⟨(fmtNat (u / 10 ^ 9 % 60) ++ ((fmtFrac 9 u false []).1 ++ uS)).length - 1, by simp only [List.length_append, uNs, uUs, uMs, uS, uM, uH, List.length_cons, List.length_nil]; omega⟩
+      rw [hn, hsec 0 n (by simp only [p63]; omega)]
+      congr 1; omega
+
+/-- **`time.ParseDuration(d.String()) = d`** for every positive duration (model of Go's
+functions, including the float64 arithmetic of the fraction). -/
+theorem parse_toString (d : Int) (h0 : 0 < d) (hmax : d ≤ maxInt64) : parse (Duration.toString d) = .ok d := by
+  obtain ⟨u, rfl⟩ : ∃ u : Nat, d = u := ⟨d.toNat, by omega⟩
+  have hu0 : 0 < u := by omega
+  have hum : u ≤ 9223372036854775807 := by simp only [maxInt64] at hmax; omega
+  rw [toString_pos u hu0 hum]
+  have hloop := loop_body u hu0 hum
+  -- the text starts with the digits of some number and continues with a unit
+  have hshape : ∃ x t, body u = fmtNat x ++ t ∧ t ≠ [] := by
+    unfold body
+    split
+    · split
+      · exact ⟨_, _, rfl, by decide⟩
+      · split
+        · exact ⟨_, _, rfl, by simp [uUs]⟩
+        · exact ⟨_, _, rfl, by simp [uMs]⟩
+    · simp only []
+      split
+      · split
+        · exact ⟨_, _, rfl, by simp [uH]⟩
+        · exact ⟨_, _, rfl, by simp [uM]⟩
+      · exact ⟨_, _, rfl, by simp [uS]⟩
+  obtain ⟨x, t, hb, ht⟩ := hshape
+  exact parse_of_loop (body u) u x t hb ht (by simp only [p63]; omega) hloop
+
 end Vegeta.Proofs.DurationRoundTrip
